@@ -234,7 +234,10 @@ func c28Observe(a *Args, st *c28Step, scratch *Args, dirty *Args) (string, strin
 	if n, err := a.WriteTo(&wb); err != nil || int(n) != len(qs) || !bytes.Equal(wb.Bytes(), qs) {
 		return "QueryString", "WriteTo disagrees with QueryString"
 	}
-	// round trip: ParseBytes(QueryString()) = model's list (minus empty-key-and-value entries)
+	// round trip: ParseBytes(QueryString()) = model's list (minus empty-key-and-value entries),
+	// parsed into an object with a HISTORY (it held a longer query string with a value at
+	// every index and was looked at) and, below, into a fresh one: both must agree
+	c28MakeDirty(scratch)
 	scratch.ParseBytes(append([]byte(nil), qs...))
 	if m := c28CheckEntries(scratch, st.R, true); m != "" {
 		return "RoundTrip", fmt.Sprintf("ParseBytes(QueryString()=%q): %s", qs, m)
@@ -261,6 +264,15 @@ func c28Observe(a *Args, st *c28Step, scratch *Args, dirty *Args) (string, strin
 	return "", ""
 }
 
+// c28DirtyQS is what a long-lived Args object held before it is used again.
+const c28DirtyQS = "d0=s3cr3t0&d1=s3cr3t1&d2=s3cr3t2&d3=s3cr3t3&d4=s3cr3t4&d5=s3cr3t5&d6=s3cr3t6&d7=s3cr3t7"
+
+func c28MakeDirty(a *Args) {
+	a.Parse(c28DirtyQS)
+	_ = a.Peek("d3")
+	_ = a.QueryString()
+}
+
 func TestVerifC28ArgsMap(t *testing.T) {
 	vfOpen(t)
 	rng := vfRand()
@@ -283,7 +295,9 @@ func TestVerifC28ArgsMap(t *testing.T) {
 		if evals%2 == 0 {
 			a = &Args{}
 		} else {
+			// a recycled object: it held eight valued arguments, was looked at and Reset()
 			a = &reused
+			c28MakeDirty(a)
 			a.Reset()
 		}
 		multi := false
